@@ -95,6 +95,13 @@ mutual
             let (_, st') ← pop st
             pure (st', rest)
           else if i.op == "PRECALL" || i.op == "CACHE" || i.op == "PUSH_NULL" then .ok (st, rest)
+          else if i.op == "LOAD_SUPER_ATTR" then do
+            -- 3.12+: one instruction on (super, cls, obj); bit 1 of the oparg says the call had its two arguments spelled out
+            let (obj, s1) ← pop st
+            let (cls, s2) ← pop s1
+            let (func, s3) ← pop s2
+            pure ((if (i.arg / 2) % 2 == 1 then func ++ "(" ++ cls ++ ", " ++ obj ++ ")." ++ i.argval
+                   else func ++ "()." ++ i.argval) :: s3, rest)
           else .error .value
         match step with
         | .error e => .error e
